@@ -260,6 +260,18 @@ let ctx_call pre_ fn a =
        if not (List.for_all (fun (x, n) -> int_of_n n <= int_of_n (vget add x)) (vc_to_list rm)) then
          report "C07" (Printf.sprintf "rm_clock %s exceeds add_clock %s" (show_vc rm) (show_vc add))
      with Bad _ -> ()) in
+  (* the add context of every read of a set / map is the replica clock: it covers all applied updates *)
+  let check_add a r =
+    if pre_ <> "mvreg" then
+      (try
+         (match a with
+          | st :: _ ->
+              let clock = vc_sx (field "clock" st) and add = vc_sx (field "add_clock" r) in
+              count "C07";
+              if not (vc_eqb clock add) then
+                report "C07" (Printf.sprintf "%s hands out add_clock %s but the replica clock is %s" fn (show_vc add) (show_vc clock))
+          | [] -> ())
+       with Bad _ -> ()) in
   (match fn, a with
    | ("read" | "read_ctx"), [_; r] when pre_ = "mvreg" && !ty = "mvreg" ->
        check_ctx r;
@@ -272,9 +284,9 @@ let ctx_call pre_ fn a =
          if not (vc_eqb expect_clock got) then
            report p (Printf.sprintf "read context %s is not the join of the applied write clocks %s" (show_vc got) (show_vc expect_clock))) ["C06"; "C07"]
    | ("read" | "read_ctx" | "contains" | "get" | "len" | "is_empty"), _ when List.mem pre_ ["orswot"; "mvreg"; "mapmv"; "mapor"; "mapmm"] && pre_ = !ty ->
-       (match List.rev a with r :: _ -> check_ctx r | [] -> ())
+       (match List.rev a with r :: _ -> check_ctx r; check_add a r | [] -> ())
    | ("iter" | "keys" | "values"), _ when pre_ = !ty ->
-       (match List.rev a with L (A "L" :: rs) :: _ -> List.iter check_ctx rs | _ -> ())
+       (match List.rev a with L (A "L" :: rs) :: _ -> List.iter (fun r -> check_ctx r; check_add a r) rs | _ -> ())
    | "derive_add", [_r; A actor; c] when pre_ = "ctx" ->
        (match !pre with
         | [A "edit"; A r; A act] when r = act && act = actor && not !tainted ->
@@ -355,10 +367,15 @@ let on_event (case : string) (cmd : string) (x : sx) =
     | L [A "op"; A _idx; A author; o; L (A "deps" :: deps)] ->
         hist := (int_of_string author, o, List.map int_sx deps) :: !hist;
         stat "edits";
-        classes := Known.classify !ty (List.rev_map (fun (_, o, _) -> o) !hist)
+        classes := List.filter (fun (f, _) -> f <> "T2" || !merges_seen)
+                     (Known.classify !ty (List.rev_map (fun (_, o, _) -> o) !hist))
     | L [A "ev"; A "deliver"; _; _] -> stat "deliveries"; case_nontrivial := true
-    | L [A "ev"; A "merge"; _; _] -> stat "merges"; merges_seen := true; case_nontrivial := true
-    | L [A "ev"; A "spawn"; _; _] -> stat "spawns"
+    | L [A "ev"; A "merge"; _; _] ->
+        stat "merges"; merges_seen := true; case_nontrivial := true;
+        classes := Known.classify !ty (List.rev_map (fun (_, o, _) -> o) !hist)
+    | L [A "ev"; A "spawn"; _; _] ->
+        stat "spawns"; merges_seen := true;   (* a snapshot copy carries state like a merge does *)
+        classes := Known.classify !ty (List.rev_map (fun (_, o, _) -> o) !hist)
     | L [A "obs"; A r; L (A "know" :: know); s] ->
         Hashtbl.replace know_of r (List.map int_sx know);
         if not !tainted && discipline_ok () then spec_check (List.map int_sx know) s
@@ -376,6 +393,9 @@ let on_event (case : string) (cmd : string) (x : sx) =
         end
     | L [A "law"; A prop; A kind; A same; A reads; a; b] ->
         if not !tainted && discipline_ok () then begin
+          (* a law line is itself about merged states: the merge-dependent class T2 applies *)
+          let saved = !classes in
+          classes := Known.classify !ty (List.rev_map (fun (_, o, _) -> o) !hist);
           stat ("law_" ^ kind);
           let cut x = String.sub (show_sx x) 0 (min 400 (String.length (show_sx x))) in
           expect prop (fun () -> Printf.sprintf "%s law fails on reads: %s vs %s" kind (cut a) (cut b)) (reads = "true");
@@ -384,7 +404,8 @@ let on_event (case : string) (cmd : string) (x : sx) =
             expect "C18" (fun () -> Printf.sprintf "reset_remove %s law fails (==): %s vs %s" kind (cut a) (cut b)) (same = "true" || state_eq !ty a b)
           else
           expect "C20" (fun () -> Printf.sprintf "%s: equal knowledge but the states are not ==: %s vs %s" kind (cut a) (cut b))
-            (same = "true" || state_eq !ty a b)
+            (same = "true" || state_eq !ty a b);
+          classes := saved
         end
     | L [A "idx"; A kind; before; ix; x; after] ->
         (* C13: local edits land at the requested index (Vec model) *)
